@@ -203,9 +203,18 @@ def obs_cfg(d):
         c3 = build(copy.deepcopy(d))
         rec["h3"] = _hash_fields(c3.stable_hash_cfg(), bad, "hash3")[0]
         rec["f3"] = _str(c3.to_fname(), bad, "fname3")
+        rec["o_kept"] = bool(raw(c, [], "oa") == o)  # asking for hash / file name left the object's content alone (deep)
     except BaseException as e:  # noqa: BLE001 - whatever the library raises is an outcome
         rec["res"] = _exc(e, stage)
     return rec
+
+
+def _ser_view(s):
+    """a serialized config without the doc string and source text of the generator (large, functions of the name)"""
+    if isinstance(s, dict) and isinstance(s.get("maze_ctor"), dict):
+        s = dict(s)
+        s["maze_ctor"] = {k: v for k, v in s["maze_ctor"].items() if k in ("__name__", "__module__")}
+    return s
 
 
 def obs_rt(d, path):
@@ -215,13 +224,22 @@ def obs_rt(d, path):
         MDC, _ = _libmods()
         bad = rec["bad"]
         c = build(d)
+        rec["o"] = raw(c, bad, "o")  # deep snapshot BEFORE serialize / load: what the caller's config held
         stage = "serialize"
         s = c.serialize()
         stage = "json.dumps(serialize)"
         s2 = json.loads(json.dumps(s))
+        rec["ser"] = tree(_ser_view(s2))  # the JSON-loaded serialized tree, as it was before load saw it
+        arg = s2 if path == "json" else s
+        pre = tree(_ser_view(arg))
         stage = "load"
-        b = MDC.load(s2 if path == "json" else s)
-        rec["o"], rec["b"] = raw(c, bad, "o"), raw(b, bad, "b")
+        b = MDC.load(arg)
+        rec["arg_kept"] = bool(tree(_ser_view(arg)) == pre)  # load did not modify its argument (deep)
+        oa = raw(c, [], "oa")
+        rec["o_kept"] = bool(oa == rec["o"])  # serialize + load did not modify the original (deep)
+        if not rec["o_kept"]:
+            rec["oa"] = oa
+        rec["b"] = raw(b, bad, "b")
         rec["same_fn"] = bool(getattr(b, "maze_ctor", None) is c.maze_ctor)
         stage = "=="
         rec["lib_eq"] = bool(b == c) and bool(c == b)
@@ -230,11 +248,6 @@ def obs_rt(d, path):
         rec["hb"] = _hash_fields(b.stable_hash_cfg(), bad, "hash_b")[0]
         stage = "to_fname"
         rec["fo"], rec["fb"] = _str(c.to_fname(), bad, "fname_o"), _str(b.to_fname(), bad, "fname_b")
-        # the JSON-loaded serialized tree (doc string and source text of the generator dropped: large, functions of the name)
-        if isinstance(s2, dict) and isinstance(s2.get("maze_ctor"), dict):
-            s2 = dict(s2)
-            s2["maze_ctor"] = {k: v for k, v in s2["maze_ctor"].items() if k in ("__name__", "__module__")}
-        rec["ser"] = tree(s2)
     except BaseException as e:  # noqa: BLE001
         rec["res"] = _exc(e, stage)
     return rec
@@ -327,7 +340,8 @@ def coll_families(bs, n):
     for k in range(n):
         m1, m2 = cap(bs[(2 * k) % len(bs)]), cap(bs[(2 * k + 1) % len(bs)])
         base = dict(name="coll", members=[m1, m2])
-        fam = [base, dict(name="coll", members=[m2, m1]), dict(name="coll", members=[m1]), dict(name="coll", members=[m1, m2, m2]), dict(name="coll2", members=[m1, m2])]
+        fam = [base, dict(name="coll", members=[m2, m1]), dict(name="coll", members=[m1]), dict(name="coll", members=[m1, m2, m2]), dict(name="coll2", members=[m1, m2]),
+               dict(name="coll", members=[]), dict(name="coll2", members=[])]  # the empty collection (no member, 0 mazes)
         for f in FIELDS:
             small = lambda v: f != "n_mazes" or v <= 25000000  # noqa: E731
             opts = [v for v in options(f, m1) if _fk(v) != _fk(m1[f]) and small(v)]
@@ -386,28 +400,49 @@ def _finish_history(rec, c, bad, load, rawfn, to_request, construct):
     return rec
 
 
+COPY_VIAS = ("deepcopy", "replace", "reload")
+
+
 def obs_edit(args):
-    """plain in-place edits: via = setattr (field <- value) | item (dict field [key] <- value) | append (applied_filters.append(value))"""
+    """plain in-place edits: via = setattr (field <- value) | item (dict field [key] <- value) | append (applied_filters.append(value));
+    via = deepcopy | replace | reload: the object is hashed, then a COPY of it (copy.deepcopy / dataclasses.replace with the new field
+    value / load(json(serialize))) receives field <- value; the copy's identity must follow ITS content, the original's must stay"""
     base, via, field, value = args
     rec = dict(kind="edit", via=via, field=field, d=desc_tree(base), edit=tree(value), res="ok", bad=[])
     bad = rec["bad"]
     stage = "build"
     try:
+        import dataclasses
+
         MDC, GM = _libmods()
-        c = build(base)
+        c = c0 = build(base)
         rec["before"] = raw(c, bad, "before")
         stage = "hash"
         rec["h0"], rec["f0"] = _hf(c, bad, "0")
         stage = "edit"
         v = copy.deepcopy(value)
+        attr, val = ("maze_ctor", GM[v]) if field == "ctor" and via not in ("item", "append") else (_ATTR.get(field), v)
         if via == "setattr":
-            setattr(c, "maze_ctor", GM[v]) if field == "ctor" else setattr(c, _ATTR[field], v)
+            setattr(c, attr, val)
         elif via == "item":
             getattr(c, _ATTR[field])[v[0]] = v[1]
         elif via == "append":
             c.applied_filters.append(v)
+        elif via == "deepcopy":
+            c = copy.deepcopy(c0)
+            setattr(c, attr, val)
+        elif via == "replace":
+            c = dataclasses.replace(c0, **{attr: val})
+        elif via == "reload":
+            c = MDC.load(json.loads(json.dumps(c0.serialize())))
+            c.stable_hash_cfg()  # the loaded copy is hashed once before it is edited
+            setattr(c, attr, val)
         else:
             raise lib.MachineryError(via)
+        if via in COPY_VIAS:
+            stage = "hash of the original after its copy was edited"
+            rec["orig_kept"] = bool(raw(c0, [], "orig") == rec["before"])
+            rec["h0b"] = _hash_fields(c0.stable_hash_cfg(), bad, "hash_0b")[0]
     except lib.MachineryError:
         raise
     except BaseException as e:  # noqa: BLE001
@@ -457,7 +492,8 @@ def raw_coll(c, bad, who):
 
 
 def obs_cedit(args):
-    """in-place edits of a collection config: via = name | member_seed | member_filters | append_member | drop_member"""
+    """in-place edits of a collection config: via = name | member_seed | member_filters | append_member | drop_member |
+    alias_member_seed | drop_all_members"""
     spec, via = args
     rec = dict(kind="cedit", via=via, d=coll_tree(spec), res="ok", bad=[])
     bad = rec["bad"]
@@ -478,13 +514,31 @@ def obs_cedit(args):
         elif via == "member_filters":
             c.maze_dataset_configs[-1].applied_filters.append(_f("path_length", 2))
         elif via == "append_member":
-            c.maze_dataset_configs.append(build(dict(spec["members"][0], name="extra")))
-        else:
+            c.maze_dataset_configs.append(build(dict(spec["members"][0] if spec["members"] else _EXTRA_MEMBER, name="extra")))
+        elif via == "alias_member_seed":
+            # the SAME member object listed twice, then edited once in place: both entries change
+            m = c.maze_dataset_configs[0]
+            c.maze_dataset_configs.append(m)
+            c.stable_hash_cfg()
+            m.seed = 8 if m.seed == 7 else 7
+        elif via == "drop_all_members":
+            del c.maze_dataset_configs[:]  # the empty collection
+        elif via == "drop_member":
             c.maze_dataset_configs.pop()
+        else:
+            raise lib.MachineryError(via)
+    except lib.MachineryError:
+        raise
     except BaseException as e:  # noqa: BLE001
         rec["res"] = _exc(e, stage)
         return rec
     return _finish_history(rec, c, bad, CC.load, raw_coll, lambda r: dict(name=r["name"], members=[_raw_to_desc(m) for m in r["members"]]), build_coll)
+
+
+_EXTRA_MEMBER = dict(name="extra", grid_n=3, n_mazes=5, seed=42, ctor="gen_dfs", ck={}, ek={}, af=[])
+CEDIT_VIAS = ("name", "member_seed", "member_filters", "append_member", "drop_member", "alias_member_seed", "drop_all_members")
+# falsy-but-meaningful values assigned in place (CLASS C): the identity must follow them like any other value
+FALSY_EDITS = [("seed", 0), ("n_mazes", 0), ("grid_n", 0), ("name", ""), ("ck", {}), ("ek", {}), ("af", [])]
 
 
 def edit_jobs(bs, per_field):
@@ -500,6 +554,23 @@ def edit_jobs(bs, per_field):
         jobs.append((b, "item", "ek", ["allowed_end", [(0, k % 3), (5, 5)]]))
         if b["ctor"] != "gen_wilson":
             jobs.append((b, "item", "ck", ["lattice_dim", 3]))
+        # falsy values: whole fields, one option inside endpoint_kwargs, one generator argument
+        for f, v in FALSY_EDITS:
+            if _fk(v) != _fk(b[f]):
+                jobs.append((b, "setattr", f, v))
+        if b["ek"].get("allowed_start", 0) is not None:
+            jobs.append((b, "item", "ek", ["allowed_start", None]))
+        if _fk(b["ek"].get("allowed_end")) != _fk([]):
+            jobs.append((b, "item", "ek", ["allowed_end", []]))
+        if "p" in ACCEPTS[b["ctor"]] and _fk(b["ck"].get("p")) != _fk(0.0):
+            jobs.append((b, "item", "ck", ["p", 0.0]))
+        # the edit made on a copy of the hashed object (deepcopy / dataclasses.replace / the loaded copy)
+        for j, via in enumerate(COPY_VIAS):
+            f = ("seed", "ek", "af", "grid_n", "ck", "name", "n_mazes")[(k + 2 * j) % 7]
+            opts = [v for v in options(f, b) if _fk(v) != _fk(b[f])]
+            if not opts:  # gen_wilson takes no kwargs
+                f, opts = "seed", [v for v in SEEDS if v != b["seed"]]
+            jobs.append((b, via, f, opts[(k + j) % len(opts)]))
     return jobs
 
 
@@ -584,21 +655,26 @@ def proc_records(ds, mains, children):
 
 
 # ------------------------------------------------------------------ the enumerated input space
-NAMES = ["t", "test", "demo_small", "A.b-c", "7up", "x" * 24]
-GRIDS = [1, 2, 3, 4, 5, 8, 10, 16, 25, 100]
-COUNTS = [1, 2, 5, 10, 100, 999, 1000, 1001, 1049, 1051, 1234, 1250, 1350, 1500, 9949, 9951, 9999, 10000, 10001, 10500, 12345, 99999, 100000, 999499, 999501, 1000001, 1500000, 25000000, 999999999, 2000000000]
+# falsy-but-meaningful values are part of every field's options (CLASS C): the empty name, a 0 x 0 grid, an empty dataset (0 mazes),
+# seed 0, 0 / 0.0 / None / False / "" / [] inside generator kwargs, endpoint options and filter arguments
+NAMES = ["t", "test", "demo_small", "A.b-c", "7up", "x" * 24, ""]
+GRIDS = [1, 2, 3, 4, 5, 8, 10, 16, 25, 100, 0]
+COUNTS = [0, 1, 2, 5, 10, 100, 999, 1000, 1001, 1049, 1051, 1234, 1250, 1350, 1500, 9949, 9951, 9999, 10000, 10001, 10500, 12345, 99999, 100000, 999499, 999501, 1000001, 1500000, 25000000, 999999999, 2000000000]
 SEEDS = [0, 1, 7, 42, 12345, 2**31 - 1]
 _TREE = [
     {}, {"accessible_cells": 5}, {"accessible_cells": 0.5}, {"accessible_cells": 1}, {"accessible_cells": 1.0}, {"max_tree_depth": 3}, {"max_tree_depth": None},
     {"do_forks": False}, {"do_forks": True}, {"accessible_cells": 20, "max_tree_depth": 0.5, "do_forks": False}, {"start_coord": [0, 0]}, {"start_coord": [0, 1]},
     {"start_coord": [1, 0]}, {"lattice_dim": 2},
+    {"accessible_cells": 0}, {"accessible_cells": 0.0}, {"max_tree_depth": 0}, {"start_coord": None}, {"accessible_cells": None, "max_tree_depth": 0.0, "do_forks": False},
+    {"max_tree_depth": -1}, {"accessible_cells": 1e-07},
 ]
 CKS = {
     "gen_dfs": _TREE + [{"randomized_stack": True}, {"randomized_stack": False}],
     "gen_prim": _TREE,
     "gen_wilson": [{}],
-    "gen_percolation": [{}, {"p": 0.1}, {"p": 0.4}, {"p": 1.0}, {"p": 0.4, "start_coord": [0, 0]}, {"p": 0.4, "lattice_dim": 2}],
-    "gen_dfs_percolation": [{}, {"p": 0.1}, {"p": 0.4}, {"p": 0.1, "accessible_cells": 5}, {"p": 0.1, "max_tree_depth": 4}, {"p": 0.1, "start_coord": [1, 1]}],
+    "gen_percolation": [{}, {"p": 0.1}, {"p": 0.4}, {"p": 1.0}, {"p": 0.4, "start_coord": [0, 0]}, {"p": 0.4, "lattice_dim": 2}, {"p": 0.0}, {"p": 0}, {"p": 1}, {"p": None}],
+    "gen_dfs_percolation": [{}, {"p": 0.1}, {"p": 0.4}, {"p": 0.1, "accessible_cells": 5}, {"p": 0.1, "max_tree_depth": 4}, {"p": 0.1, "start_coord": [1, 1]}, {"p": 0.0},
+                            {"p": 0.0, "accessible_cells": 0}, {"p": 0.1, "max_tree_depth": None}],
 }
 # keyword arguments each generator accepts (used only to build generator lines whose kwargs make sense for every member)
 ACCEPTS = {
@@ -616,6 +692,9 @@ EKS = [
     {"allowed_start": [(1, 1)], "allowed_end": [(0, 0)]},
     {"allowed_start": [(0, 0), (1, 1), (2, 2)], "allowed_end": [(2, 2)], "deadend_end": True, "endpoints_not_equal": True},
     {"allowed_start": [(10, 12), (3, 15)]}, {"allowed_start": [(1, 12), (103, 5)], "allowed_end": None, "deadend_start": False},
+    {"except_when_invalid": False}, {"allowed_end": None}, {"allowed_end": []}, {"allowed_start": [], "allowed_end": []},
+    {"allowed_start": None, "allowed_end": [], "deadend_start": False, "deadend_end": False, "endpoints_not_equal": False, "except_when_invalid": False},
+    {"allowed_end": [(127, 128), (255, 256)], "deadend_end": False},
 ]
 
 
@@ -629,6 +708,8 @@ AFS = [
     [_f("remove_duplicates", 1, 1)], [_f("remove_duplicates", None, 1)], [_f("remove_duplicates_fast")], [_f("strip_generation_meta")],
     [_f("collect_generation_meta", clear_in_mazes=True, inplace=True, allow_fail=False)], [_f("path_length", 3), _f("truncate_count", 10)],
     [_f("truncate_count", 10), _f("path_length", 3)], [_f("path_length", 3), _f("path_length", 3)], [_f("my_filter", "x", True, None, 2.5, b=1, a=None)],
+    [_f("path_length", 0)], [_f("path_length", min_length=0)], [_f("cut_percentile_shortest", 0.0)], [_f("cut_percentile_shortest", 0)], [_f("truncate_count", 0)],
+    [_f("path_length", None)], [_f("my_filter", 0, "", None, 0.0, a=0, b=False, c="", d=None, e=0.0)], [_f("my_filter", False)],
 ]
 FIELDS = ["name", "grid_n", "n_mazes", "seed", "ctor", "ck", "ek", "af"]
 
@@ -731,13 +812,13 @@ _H2 = "1111111111222222222233333333334444444444555555555566666666667777777775432
 
 def _syn_rt(**over):
     o = _syn()
-    r = dict(kind="rt", path="json", res="ok", bad=[], o=o, b=_syn(), same_fn=True, lib_eq=True, ho=_H1, hb=_H1, fo="demo-g10-n5-a_dfs-h123", fb="demo-g10-n5-a_dfs-h123", ser=_syn_ser(o))
+    r = dict(kind="rt", path="json", res="ok", bad=[], o=o, b=_syn(), same_fn=True, lib_eq=True, ho=_H1, hb=_H1, fo="demo-g10-n5-a_dfs-h123", fb="demo-g10-n5-a_dfs-h123", ser=_syn_ser(o), o_kept=True, arg_kept=True)
     r.update(over)
     return r
 
 
 def _syn_cfg(**over):
-    r = dict(kind="cfg", res="ok", bad=[], o=dict(name="demo", grid_n=10, n_mazes=1500, seed=7, ctor="gen_dfs_percolation"), hash=_H1, hd=list(_H1), hneg=False, hmod=123, fname="demo-g10-n1.5K-a_dfs_percolation-h123", h2=_H1, h3=_H1, f3="demo-g10-n1.5K-a_dfs_percolation-h123")
+    r = dict(kind="cfg", res="ok", bad=[], o=dict(name="demo", grid_n=10, n_mazes=1500, seed=7, ctor="gen_dfs_percolation"), hash=_H1, hd=list(_H1), hneg=False, hmod=123, fname="demo-g10-n1.5K-a_dfs_percolation-h123", h2=_H1, h3=_H1, f3="demo-g10-n1.5K-a_dfs_percolation-h123", o_kept=True)
     r.update(over)
     return r
 
@@ -770,6 +851,7 @@ def _canaries():
     return [
         (_syn_rt(), "__accept__"),
         (_syn_cfg(), "__accept__"),
+        (_syn_cfg(o=dict(name="", grid_n=0, n_mazes=0, seed=0, ctor="gen_dfs"), fname="-g0-n0-a_dfs-h123", f3="-g0-n0-a_dfs-h123"), "__accept__"),  # falsy values are values
         (_syn_rt(b=_syn(ek=tree({"allowed_start": [[0, 0], [1, 2]], "deadend_end": True}))), "coords_not_tuples"),
         (_syn_rt(b=_syn(ek=tree({"allowed_start": [(0, 0), (2, 1)], "deadend_end": True}))), "endpoint_kwargs_changed"),
         (_syn_rt(b=_syn(ek=tree({"allowed_start": [(0, 0), (1, 2)], "deadend_end": False}))), "endpoint_kwargs_changed"),
@@ -791,6 +873,19 @@ def _canaries():
         (_syn_rt(res="raise:TypeError@load"), "unexpected_exception"),
         (_syn_rt(bad=["b.grid_n:str"]), "wrong_type"),
         (_syn_rt(ser=tree({"name": "demo"})), "M:ser_differs_from_model"),
+        (_syn_rt(o_kept=False), "M:original_modified_by_round_trip"),
+        (_syn_rt(arg_kept=False), "M:load_modified_its_argument"),
+        (_syn_cfg(o_kept=False), "M:original_modified_by_hashing"),
+        (_syn_rt(o=_syn(name=""), b=_syn(name="demo")), "name_changed"),                      # falsy values are values
+        (_syn_rt(o=_syn(seed=0), b=_syn(seed=7)), "seed_changed"),
+        (_syn_rt(o=_syn(n_mazes=0), b=_syn(n_mazes=5)), "n_mazes_changed"),
+        (_syn_rt(o=_syn(ek=tree({"allowed_start": None})), b=_syn(ek=tree({}))), "endpoint_kwargs_changed"),
+        (_syn_rt(o=_syn(ek=tree({"allowed_end": [], "deadend_end": False})), b=_syn(ek=tree({"allowed_end": None, "deadend_end": False}))), "endpoint_kwargs_changed"),
+        (_syn_rt(o=_syn(ck=tree({"accessible_cells": 0})), b=_syn(ck=tree({"accessible_cells": 0.0}))), "generator_kwargs_changed"),
+        (_syn_rt(o=_syn(ck=tree({"accessible_cells": 0})), b=_syn(ck=tree({"accessible_cells": None}))), "generator_kwargs_changed"),
+        (_syn_rt(o=_syn(af=tree([_f("path_length", 0)])), b=_syn(af=tree([_f("path_length")]))), "filters_changed"),
+        (_syn_rt(o=_syn(af=tree([_f("path_length", min_length=0)])), b=_syn(af=tree([_f("path_length", min_length=None)]))), "filters_changed"),
+        (_syn_cfg(o=dict(name="", grid_n=0, n_mazes=0, seed=0, ctor="gen_dfs"), fname="demo-g0-n0-a_dfs-h123", f3="demo-g0-n0-a_dfs-h123"), "fname_format"),
         (_syn_cfg(fname="demo-g10-n1.5K-a_dfs_percolation-h00123"), "fname_format"),
         (_syn_cfg(fname="demo-g10-n1.5K-a_gen_dfs_percolation-h123"), "fname_format"),
         (_syn_cfg(fname="demo-g10-n1500-a_dfs_percolation-h123"), "fname_format"),
@@ -821,12 +916,19 @@ def _canaries():
         (_syn_edit(after=_syn(), fresh=_syn(), reload=_syn()), "H:edit_malformed"),
         (_syn_edit(field="name"), "H:edit_malformed"),
         (_syn_edit(res="raise:AttributeError@edit"), "unexpected_exception"),
+        (_syn_edit(via="reload", orig_kept=True, h0b=_H1), "__accept__"),
+        (_syn_edit(via="deepcopy", orig_kept=True, h0b=_H2), "hash_not_repeatable"),              # editing the copy moved the original's hash
+        (_syn_edit(via="replace", orig_kept=False, h0b=_H2), "M:original_changed_by_editing_a_copy"),
+        (_syn_edit(via="reload", orig_kept=True, h0b=_H1, h1=_H1, f1="demo-g10-n5-a_dfs-h123"), "hash_stale_after_in_place_edit"),  # the loaded copy keeps the identity it was loaded with
         (_syn_cedit(), "__accept__"),
         (_syn_cedit(h1=_H1, f1="collected-coll-n10-h123"), "hash_stale_after_in_place_edit"),
         (_syn_cedit(hl=_H1), "reloaded_copy_hashes_differently"),
         (_syn_coll(), "__accept__"),
         (_syn_coll(bm=[_syn(), _syn(name="second", af=tree([{"name": "path_length", "args": [3], "kwargs": {}}]))]), "member_changed"),
         (_syn_coll(bm=[_syn()]), "member_changed"),
+        (_syn_coll(om=[], bm=[], fname="collected-coll-n0-h123"), "__accept__"),                    # the empty collection
+        (_syn_coll(om=[], bm=[_syn()], fname="collected-coll-n0-h123"), "member_changed"),
+        (_syn_coll(om=[], bm=[], fname="collected-coll-n-h123"), "M:collection_fname_format"),
         (_syn_coll(bm=[_syn(name="second"), _syn()]), "member_changed"),
         (_syn_coll(h3=_H2), "hash_not_repeatable"),
         (_syn_coll(hb=_H2), "hash_changed_by_round_trip"),
@@ -840,32 +942,85 @@ def _canaries():
     ]
 
 
+def _exact():
+    """synthetic records with the EXACT clause set the oracle must return: a guard must not drag a Layer-P clause along with it
+    (a Layer-P clause is only evaluated on the part of a record the guards vouch for), and must not hide an independent one"""
+    d0 = {k: v for k, v in _syn().items() if k not in ("slmin", "slmax")}
+    return [
+        # the "fresh equal config" is not equal (seed 9 instead of 8) and hashes differently: only the guard
+        (_syn_edit(fresh=_syn(seed=9), hf=_H1, ff="demo-g10-n5-a_dfs-h123"), {"H:fresh_not_equal"}),
+        # ... but a hash that did not move at all is still convicted next to the guard
+        (_syn_edit(fresh=_syn(seed=9), hf=_H1, h1=_H1, hl=_H1), {"H:fresh_not_equal", "hash_stale_after_in_place_edit"}),
+        # the edit changed nothing: an unchanged hash is not "stale"
+        (_syn_edit(after=_syn(), fresh=_syn(), reload=_syn(), h1=_H1, hf=_H1, hl=_H1, f1="demo-g10-n5-a_dfs-h123", ff="demo-g10-n5-a_dfs-h123", fl="demo-g10-n5-a_dfs-h123"), {"H:edit_malformed"}),
+        # a line whose two configs are equal: the equal hashes are not a collision
+        (dict(kind="line", res="ok", bad=[], field="seed", cfgs=[d0, dict(d0)], hashes=[_H1, _H1]), {"H:line_malformed"}),
+        # a config outside the scope (coordinates held as lists): the Layer-P comparison with the loaded copy is still made
+        (_syn_rt(o=_syn(ek=tree({"allowed_start": [[0, 0], [1, 2]], "deadend_end": True}))), {"H:not_in_scope", "endpoint_kwargs_changed"}),
+        (_syn_rt(o=_syn(ek=tree({"allowed_start": [[0, 0], [1, 2]], "deadend_end": True})), b=_syn(ek=tree({"allowed_start": [[0, 0], [1, 2]], "deadend_end": True}))), {"H:not_in_scope", "coords_not_tuples"}),
+        (_syn_cfg(hmod=124), {"H:hmod_inconsistent"}),
+        (_syn_cfg(hmod=124, h2=_H2), {"H:hmod_inconsistent", "hash_not_repeatable"}),
+    ]
+
+
+def _guarded_violation(chk):
+    """route the oracle's "H:" clauses (harness guards) away from Check.violation: a guard is never a property violation
+    (no VIOLATION line, no replay file); it is collected on the check and settled once, after every batch has been judged"""
+    orig = chk.violation
+    guards = chk.__dict__.setdefault("_c18_guards", [])
+
+    def violation(clause, case, label=""):
+        if clause.startswith("H:"):
+            guards.append((clause, case))
+            return None
+        return orig(clause, case, label)
+
+    return violation
+
+
 def _judge(chk, recs, label="c18"):
     """judge with the synthetic canaries; '__accept__' canaries are sound records the oracle must NOT reject"""
     cans = _canaries()
     must = [(c, cl) for c, cl in cans if cl != "__accept__"]
-    sound = [c for c, cl in cans if cl == "__accept__"]
-    if sound:
-        for i, c in enumerate(sound):
-            c["id"] = i
-        r0 = lib.oracle("Trace_ConfigId", sound, tag="sound")
-        if r0.verdicts:
-            raise lib.MachineryError(f"oracle rejects a sound synthetic record: {r0.verdicts}")
+    exact = [(c, set()) for c, cl in cans if cl == "__accept__"] + _exact()
+    for i, (c, _) in enumerate(exact):
+        c["id"] = i
+    r0 = lib.oracle("Trace_ConfigId", [c for c, _ in exact], tag="sound")
+    for i, (c, want) in enumerate(exact):
+        got = set(r0.verdicts.get(i, []))
+        if got != want:
+            raise lib.MachineryError(f"oracle returns {sorted(got)} for a synthetic record that must give exactly {sorted(want)}: {json.dumps(c, default=str)[:400]}")
 
     def case_of(x):
         return {k: v for k, v in x.items() if k != "ser"}
 
-    res = lib.judge_with_canaries(chk, "Trace_ConfigId", recs, must, label=label, what="cfg / rt / line / fam / proc observations of the real MazeDatasetConfig judged against ConfigId.tla", case_of=case_of)
-    hs = sorted({c for cs in res.verdicts.values() for c in cs if c.startswith("H:")})
-    if hs:
-        # a guard says "this record is not what the driver meant to build".  When the same run also convicts the code of a
-        # property clause, the likeliest cause is that very defect (e.g. a constructor that does not keep the seed it is given makes the
-        # driver's own "fresh equal config" unequal): report the violations (exit 1), not a machinery failure (exit 2)
-        if chk.violations:
-            print(f"NOTE property=C18 harness guard clauses {hs} fired in a run that also found property violations; they are not judged")
-        else:
-            raise lib.MachineryError(f"harness guard clauses fired: {hs}")
+    chk.violation = _guarded_violation(chk)  # instance attribute: shadows the method for this call only
+    try:
+        res = lib.judge_with_canaries(chk, "Trace_ConfigId", recs, must, label=label, what="cfg / rt / line / fam / proc observations of the real MazeDatasetConfig judged against ConfigId.tla", case_of=case_of)
+    finally:
+        del chk.violation
     return res
+
+
+def _settle_guards(chk):
+    """called ONCE, after the last batch: a guard says "this record is not what the driver meant to build".  Guards are never
+    violations themselves.  The oracle evaluates every Layer-P clause only on the part of a record its guards vouch for, so the
+    Layer-P violations of the run (chk.violations holds no "H:" clause) stand on their own: when there is one, the run is reported as
+    exit 1 and the guards -- most likely a symptom of the same defect, e.g. a constructor that does not keep the seed it is given
+    makes the driver's "fresh equal config" unequal -- are only noted.  Guards without any property violation in the WHOLE run
+    (whatever the order of batches) are a machinery failure (exit 2)."""
+    guards = chk.__dict__.get("_c18_guards", [])
+    if not guards:
+        return
+    names = sorted({c for c, _ in guards})
+    chk.notes["harness_guards_fired"] = {n: sum(1 for c, _ in guards if c == n) for n in names}
+    if any(c.startswith(("H:", "M:")) for c, _ in chk.violations):
+        raise lib.MachineryError(f"guard / model clause recorded as a violation: {sorted({c for c, _ in chk.violations})}")
+    if chk.violations:
+        print(f"NOTE property=C18 harness guard clauses {names} fired on {len(guards)} records in a run that also found property violations; guards are not judged")
+        return
+    first = json.dumps(guards[0][1], default=str)[:600]
+    raise lib.MachineryError(f"harness guard clauses fired without any property violation: {chk.notes['harness_guards_fired']}; first record: {first}")
 
 
 # ------------------------------------------------------------------ outside-scope observations (recorded, not judged)
@@ -888,6 +1043,29 @@ def _outside_scope():
     probe("tuple_nested_in_filter_args_through_json", lambda: rt_json(applied_filters=[{"name": "f", "args": ((1, 2),), "kwargs": {}}]))
     probe("tuple_in_filter_kwargs_through_json", lambda: rt_json(applied_filters=[{"name": "f", "args": (), "kwargs": {"at": (1, 2)}}]))
     probe("ndarray_start_coord_hash", lambda: str(MDC(name="t", grid_n=3, n_mazes=4, maze_ctor_kwargs={"start_coord": np.array([0, 0])}).stable_hash_cfg())[:12])
+    # other REPRESENTATIONS of the same values (CLASS G) are outside the stated scope (type hints: int, list[tuple[int, int]], args tuple):
+    probe("coords_as_list_of_lists_through_json", lambda: rt_json(endpoint_kwargs={"allowed_start": [[0, 0], [1, 1]]}))
+    probe("coords_as_tuple_of_tuples_through_json", lambda: rt_json(endpoint_kwargs={"allowed_start": ((0, 0), (1, 1))}))
+    probe("coords_as_ndarray_hash", lambda: str(MDC(name="t", grid_n=3, n_mazes=4, endpoint_kwargs={"allowed_start": np.array([[0, 0]])}).stable_hash_cfg())[:12])
+    probe("filter_args_as_list_through_json", lambda: rt_json(applied_filters=[{"name": "f", "args": [1], "kwargs": {}}]))
+    probe("numpy_int_grid_n_hash", lambda: str(MDC(name="t", grid_n=np.int64(3), n_mazes=4).stable_hash_cfg())[:12])
+    probe("float_valued_grid_n_fname", lambda: MDC(name="t", grid_n=3.0, n_mazes=4).to_fname())
+
+    # memory shared between a config, its serialized form and the config loaded from it (CLASS E): the statement promises equality, not
+    # independence; what IS judged: serialize / load / hashing leave their operands unchanged (o_kept, arg_kept) and the loaded copy is equal
+    def sharing():
+        c = MDC(name="t", grid_n=3, n_mazes=4, maze_ctor_kwargs={"p": 0.5}, endpoint_kwargs={"allowed_start": [(0, 0)]}, applied_filters=[{"name": "f", "args": (1,), "kwargs": {}}])
+        s = c.serialize()
+        b = MDC.load(s)
+        s2 = json.loads(json.dumps(s))
+        b2 = MDC.load(s2)
+        return dict(
+            serialized_shares_with_config={k: s[k] is getattr(c, k) for k in ("maze_ctor_kwargs", "endpoint_kwargs", "applied_filters")},
+            loaded_direct_shares_with_config={k: getattr(b, k) is getattr(c, k) for k in ("maze_ctor_kwargs", "endpoint_kwargs", "applied_filters")},
+            loaded_json_shares_with_argument={k: getattr(b2, k) is s2[k] for k in ("maze_ctor_kwargs", "endpoint_kwargs", "applied_filters")},
+        )
+
+    probe("memory_shared_by_serialize_and_load", sharing)
     probe("fname_n_mazes_1000000", lambda: MDC(name="t", grid_n=3, n_mazes=10**6).to_fname())
     probe("fname_n_mazes_1000000000", lambda: MDC(name="t", grid_n=3, n_mazes=10**9).to_fname())
     return out
@@ -951,7 +1129,7 @@ def main(chk: lib.Check) -> int:
     for d in cr:
         units[_key(d)] = (d, True)
     # seq_len fields take part in the round trip only
-    extra = [dict(b, slmin=lo, slmax=hi) for b in bs[:10] for lo, hi in ((1, 512), (5, 5), (1, 2048), (17, 300))]
+    extra = [dict(b, slmin=lo, slmax=hi) for b in bs[:10] for lo, hi in ((1, 512), (5, 5), (1, 2048), (17, 300), (0, 0), (0, 512))]
     ulist = list(units.values()) + [(d, True) for d in extra]
     for d, _ in ulist:
         if not _in_scope(d):
@@ -979,9 +1157,10 @@ def main(chk: lib.Check) -> int:
     ejobs = edit_jobs(bs if thorough else bs[:16], 3 if thorough else 2)
     hist = lib.pmap(obs_edit, ejobs, chunksize=8)
     hist += lib.pmap(obs_edit_lib, [(b, p) for b in lib_bases() for p in LIB_PATHS], chunksize=2)
-    hist += lib.pmap(obs_cedit, [(fam[0], via) for fam in cfams for via in ("name", "member_seed", "member_filters", "append_member", "drop_member")], chunksize=2)
+    hist += lib.pmap(obs_cedit, [(fam[0], via) for fam in cfams for via in CEDIT_VIAS], chunksize=2)
+    hist += lib.pmap(obs_cedit, [(dict(name="coll", members=[]), via) for via in ("name", "append_member")], chunksize=1)  # histories that start from the empty collection
     recs += hist
-    chk.notes["histories"] = dict(plain_edits=len(ejobs), library_paths=LIB_PATHS, library_histories=len(lib_bases()) * len(LIB_PATHS), collection_histories=len(cfams) * 5)
+    chk.notes["histories"] = dict(plain_edits=len(ejobs), library_paths=LIB_PATHS, library_histories=len(lib_bases()) * len(LIB_PATHS), collection_histories=len(cfams) * len(CEDIT_VIAS) + 2)
     # other interpreter processes
     stride = max(1, len(ulist) // (12000 if thorough else 400))
     pidx = sorted(set(range(0, len(ulist), stride)) | set(range(len(ulist) - len(extra), len(ulist))))
@@ -1039,6 +1218,7 @@ def main(chk: lib.Check) -> int:
             chk.sample(smp)
 
     _judge(chk, recs)
+    _settle_guards(chk)  # after the LAST batch
     chk.exhaustive = True
     chk.notes["exhaustive_scope"] = (
         f"the full cross product of {len(cr)} configs (2 names x 2 grids x 2 counts x 2 seeds x all 5 generators x first kwargs x selected endpoint options x selected filter lists): "
@@ -1093,9 +1273,11 @@ def replay(path: str) -> int:
     rec["id"] = 0
     out = lib.oracle("Trace_ConfigId", [rec], tag="rp")
     v = out.verdicts.get(0, [])
-    show = {k: rec[k] for k in rec if k in ("kind", "path", "res", "bad", "field", "hash", "fname", "hashes", "obs", "lib_eq", "same_fn", "ho", "hb", "fo", "fb", "via", "field", "h0", "h1", "hf", "hl", "f0", "f1", "ff", "fl", "leq")}
+    show = {k: rec[k] for k in rec if k in ("kind", "path", "res", "bad", "field", "hash", "fname", "hashes", "obs", "lib_eq", "same_fn", "ho", "hb", "fo", "fb", "via", "field", "h0", "h1", "hf", "hl", "f0", "f1", "ff", "fl", "leq", "o_kept", "arg_kept", "orig_kept", "h0b")}
     print("replay:", json.dumps(show)[:700], "verdict:", v)
-    if any(not c.startswith("M:") for c in v):
+    if any(not c.startswith(("M:", "H:")) for c in v):
         print(f"VIOLATION property=C18 replay={path}")
         return 1
+    if any(c.startswith("H:") for c in v):
+        raise lib.MachineryError(f"only harness guard clauses on replay: {v}")
     return 0
